@@ -1067,24 +1067,24 @@ func runC09(w *World) *Result {
 	r.Explanation = "Decides structural conditions of linking and dead-function removal (SSA over the parser): (edge) the call node is built at one site that records the callee's emitted name under the current function key before the node exists; the key is set before a function body is parsed and reset afterwards; the clean-up removes only function definitions whose name is absent from the closure computed from the top-level key; (merge) when the call graph of an imported file is merged, membership is tested against the destination list while ranging over the incoming list (a membership test of an element in the list it is ranged from is vacuous); (prefix) the namespace prefix is the first component of emitted shell identifiers and must therefore start with a letter or underscore for every file content; (public) only public definitions are imported and alias lookups are tested."
 	r.NotDecided = "behaviour of diamonds / repeated aliases at run time (duplicate top-level statements of a file reached twice)."
 	r.Rule("R-C09-edge", "call edges recorded at the single construction site of call nodes; key set/reset around bodies; removal keyed by the closure", 3)
-	r.Rule("R-C09-merge", "merging call edges: no vacuous membership test (element tested against the list it ranges over); a map entry extended in a loop extends its current value", 2)
-	r.Rule("R-C09-prefix", "namespace prefix starts with a letter or underscore for all contents", 1)
+	r.Rule("R-C09-merge", "merging call edges: no vacuous membership test (element tested against the list it ranges over); a map entry extended in a loop extends its current value; an element found missing is added to the collection that was tested", 4)
+	r.Rule("R-C09-prefix", "namespace prefix starts with a letter or underscore for all contents and is a digest of the whole file content (different files, different name spaces)", 2)
 	r.Rule("R-C09-public", "only public definitions are imported; public = first rune upper case (one predicate feeds every flag)", 3)
 	cf, err := buildCtxFacts(w)
 	if err != nil {
 		r.Bad("R-C09-edge", "context:facts", "-", err.Error())
 		return r
 	}
-	c09Edge(w, r)
-	c09Merge(w, r)
+	c09Edge(w, r, "R-C09-edge")
+	c09Merge(w, r, "R-C09-merge")
 	c09Prefix(w, r)
+	PrefixDigestRule(w, r, "R-C09-prefix", nil)
 	c07Public(w, cf, r, "R-C09-public")
 	c07Predicate(w, r, "R-C09-public")
 	return r
 }
 
-func c09Edge(w *World, r *Result) {
-	rule := "R-C09-edge"
+func c09Edge(w *World, r *Result, rule string) {
 	var sites []*ssa.Function
 	for _, fn := range w.Funcs("parser") {
 		if constructsNode(fn, "FunctionCall") && fn.Parent() == nil {
@@ -1298,8 +1298,7 @@ func reachesBefore(a, b ssa.Instruction) bool {
 	return false
 }
 
-func c09Merge(w *World, r *Result) {
-	rule := "R-C09-merge"
+func c09Merge(w *World, r *Result, rule string) {
 	n := 0
 	for _, fn := range w.Funcs("parser") {
 		perFn := 0
@@ -1335,14 +1334,180 @@ func c09Merge(w *World, r *Result) {
 	if n == 0 {
 		r.Bad(rule, "merge:none", "-", "no membership test found in the parser")
 	}
-	c09Accumulate(w, r)
+	c09Accumulate(w, r, rule)
+	c09AddIfAbsent(w, r, rule)
+}
+
+// c09AddIfAbsent: where an element that a membership test found missing is appended, the
+// result of the append reaches the collection the test looked at (a map entry, a field)
+// or, for a local list, is used after the loop. An append into a local copy of a map
+// entry that nobody reads afterwards silently drops the element.
+func c09AddIfAbsent(w *World, r *Result, rule string) {
+	for _, fn := range w.Funcs("parser") {
+		perFn := 0
+		for _, b := range fn.Blocks {
+			if len(b.Instrs) == 0 {
+				continue
+			}
+			ifi, ok := b.Instrs[len(b.Instrs)-1].(*ssa.If)
+			if !ok {
+				continue
+			}
+			c, neg := condOf(b)
+			call, ok := c.(*ssa.Call)
+			if !ok {
+				continue
+			}
+			callee := call.Call.StaticCallee()
+			if callee == nil || !strings.HasPrefix(callee.String(), "slices.Contains") || len(call.Call.Args) != 2 {
+				continue
+			}
+			_ = ifi
+			// only lists that are (copies of) a shared collection: a map entry or a field
+			shared := false
+			var src func(v ssa.Value, d int)
+			seenSrc := map[ssa.Value]bool{}
+			src = func(v ssa.Value, d int) {
+				if d > 4 || seenSrc[v] {
+					return
+				}
+				seenSrc[v] = true
+				switch x := v.(type) {
+				case *ssa.Phi:
+					for _, e := range x.Edges {
+						src(e, d+1)
+					}
+				case *ssa.Extract:
+					if _, ok := x.Tuple.(*ssa.Lookup); ok {
+						shared = true
+					}
+				case *ssa.Lookup:
+					shared = true
+				case *ssa.UnOp:
+					if _, ok := x.X.(*ssa.FieldAddr); ok {
+						shared = true
+					}
+				}
+			}
+			src(call.Call.Args[0], 0)
+			if !shared {
+				continue
+			}
+			elem := call.Call.Args[1]
+			absent := b.Succs[1]
+			if neg {
+				absent = b.Succs[0]
+			}
+			if len(absent.Preds) != 1 {
+				continue
+			}
+			// appends of elem in the absent branch
+			for _, blk := range fn.Blocks {
+				if !absent.Dominates(blk) {
+					continue
+				}
+				for _, ins := range blk.Instrs {
+					ap, ok := ins.(*ssa.Call)
+					if !ok {
+						continue
+					}
+					bi, ok := ap.Call.Value.(*ssa.Builtin)
+					if !ok || bi.Name() != "append" || len(ap.Call.Args) != 2 {
+						continue
+					}
+					has := false
+					for _, e := range variadicElems(ap.Call.Args[1]) {
+						if e == elem {
+							has = true
+						}
+					}
+					if !has {
+						continue
+					}
+					perFn++
+					key := fmt.Sprintf("addifabsent:%s#%d", FuncName(fn), perFn)
+					kept, how := false, ""
+					var follow func(v ssa.Value, depth int)
+					seen := map[ssa.Value]bool{}
+					follow = func(v ssa.Value, depth int) {
+						if seen[v] || depth > 4 {
+							return
+						}
+						seen[v] = true
+						for _, ref := range *v.Referrers() {
+							switch x := ref.(type) {
+							case *ssa.MapUpdate:
+								if x.Value == v {
+									kept, how = true, "stored into the map entry"
+								}
+							case *ssa.Store:
+								if x.Val == v {
+									kept, how = true, "stored"
+								}
+							case *ssa.Return:
+								kept, how = true, "returned"
+							case *ssa.Phi:
+								follow(x, depth+1)
+							case *ssa.Call:
+								if x == ap || x == call {
+									continue
+								}
+								if bi, ok := x.Call.Value.(*ssa.Builtin); ok && (bi.Name() == "append" || bi.Name() == "len") {
+									if bi.Name() == "append" && x.Call.Args[0] == v {
+										follow(x, depth+1)
+									}
+									continue
+								}
+								if cal := x.Call.StaticCallee(); cal != nil && strings.HasPrefix(cal.String(), "slices.Contains") {
+									continue
+								}
+								kept, how = true, "passed on"
+							default:
+								if _, isVal := ref.(ssa.Value); isVal {
+									kept, how = true, "used"
+								}
+							}
+						}
+					}
+					follow(ap, 0)
+					if kept {
+						r.Ok(rule, key, w.Pos(ap.Pos()), "the element found missing is appended and the result is "+how)
+					} else {
+						r.Bad(rule, key, w.Pos(ap.Pos()), "the element found missing is appended to a local copy that is only consulted by the membership test itself: the collection the test looked at (map entry) never receives it, so the call edge is lost and the function behind it is removed as unused")
+					}
+				}
+			}
+		}
+	}
+}
+
+// variadicElems: the values packed into the variadic argument slice of a call.
+func variadicElems(v ssa.Value) []ssa.Value {
+	sl, ok := v.(*ssa.Slice)
+	if !ok {
+		return nil
+	}
+	al, ok := sl.X.(*ssa.Alloc)
+	if !ok {
+		return nil
+	}
+	var out []ssa.Value
+	for _, r := range *al.Referrers() {
+		if ia, ok := r.(*ssa.IndexAddr); ok {
+			for _, rr := range *ia.Referrers() {
+				if st, ok := rr.(*ssa.Store); ok {
+					out = append(out, st.Val)
+				}
+			}
+		}
+	}
+	return out
 }
 
 // c09Accumulate: a map entry extended inside a loop (m[k] = append(base, e) with k fixed
 // for the loop) must extend the entry's current value: a base taken before the loop makes
 // every iteration overwrite the previous one, so only the last added element survives.
-func c09Accumulate(w *World, r *Result) {
-	rule := "R-C09-merge"
+func c09Accumulate(w *World, r *Result, rule string) {
 	for _, fn := range w.Funcs("parser") {
 		var loops map[*ssa.BasicBlock]*ssa.BasicBlock
 		perFn := 0
